@@ -40,8 +40,9 @@ ASSUMPTIONS = [
     'hand-derived Excel facts)',
 ]
 
-VALS_SMALL = (2, 3, 5)
-VECTORS = ((2, 3, 5, 7, 11, 13), (7, 5, 3, 2, 11, 4), (0.5, 4, 3, 2, 8, 5))
+VALS_SMALL = (0, 2, 3, 5)       # 0: a zero factor must not hide an error
+VECTORS = ((2, 3, 5, 7, 11, 13), (7, 5, 3, 2, 11, 4), (0.5, 4, 3, 2, 8, 5),
+           (0, 3, 0, 2, 5, 0))
 
 AT = 'Sheet1!Z1'
 
